@@ -148,11 +148,14 @@ type zzCidrBook struct {
 	strs     []string
 	cidrs    []zzCidr
 	fullUsed bool
+	menu     []int // override of the prefix-length menu (nil = by tier)
 }
 
 func (b *zzCidrBook) New(name string) string {
 	var n int
-	if vf_Tier() > 0 && !b.fullUsed {
+	if b.menu != nil {
+		n = b.menu[vf_Choose(name+".len", len(b.menu))]
+	} else if vf_Tier() > 0 && !b.fullUsed {
 		b.fullUsed = true
 		n = vf_Choose(name+".len", 33)
 	} else if vf_Tier() > 0 {
